@@ -76,3 +76,8 @@ claim("C19",
       "Decides the structure of the watcher: it observes exactly the four directories the loader reads (constant sets compared), a notification is sent iff the event is a write and the lower-cased file name has the suffix the loader filters on (sibling agreement), the hand-off is a select that also observes ctx.Done(), close(change) is deferred first in the only sender, a goroutine closes the watcher on cancellation, the event loop ranges over the watcher's channel; on the consumer side every case of the manager's select cancels the per-cycle device context and the outer loop reloads the configurations. Kernel notification timing is NOT decided.",
       COMMON_NOTE + " fsnotify and inotify behaviour are trusted.",
       "constant-set comparison between sibling tables + dominating-guard rule at the notification send + channel-flow (single sender/closer) + select-shape rules")
+
+claim("C18",
+      "Effect-confinement analysis of updateHIDIConfiguration and its two walk callbacks on all their paths: complete inventory of file-system mutating calls (Mkdir x2, write-OpenFile x4, Write x4; none of the removing/renaming/overwriting APIs); the whole-tree generation runs only when the directory was found missing; when it exists only paths handed out by the walk of the embedded factory tree are written; the blacklist is created only on a not-exist edge, with O_CREATE and without O_TRUNC/O_APPEND; every Write writes exactly the embedded template read for the very path that was opened; an existing factory file is compared (disk content vs template of the same path) and either left alone when equal or replaced whole with O_TRUNC; a missing one is created; errors of mutating calls and template reads are returned. OS-level atomicity, permissions and symlinks are NOT decided.",
+      COMMON_NOTE + " os/io/fs semantics (OpenFile flags, WalkDir callback contract) are trusted as documented.",
+      "path-effect enumeration over go/ssa with constant folding of paths and open flags, matched against region/content templates; call inventory; error-edge reachability")
